@@ -159,6 +159,9 @@ func (c *Ctx) Violation(what string, replay []byte) {
 	hdr, _ := json.Marshal(map[string]any{"e": "violation", "property": c.ID, "what": what})
 	os.WriteFile(path, append(append(hdr, '\n'), replay...), 0o644)
 	fmt.Printf("VIOLATION property=%s replay=%s\n", c.ID, path)
+	if len(what) > 700 {
+		what = what[:700] + "..."
+	}
 	fmt.Fprintf(os.Stderr, "[vcheck] violation: %s\n", what)
 }
 
